@@ -143,6 +143,7 @@ type PoolType struct {
 	Type      reflect.Type
 	FoldOnly  bool // has a custom folder: excluded from round trips
 	Recursive bool
+	Family    bool // member of the Rec2 family: only used where a fresh recursive type is wanted
 }
 
 var Pool = []PoolType{
